@@ -187,8 +187,8 @@ class Check(PropertyCheck):
             "proto x flow/ignore x server pre-connected; exhaustive short schedules first, then random ones of length <= 16 "
             "(about 10% contain events server.py cannot produce: second close, data after close). distinct = distinct "
             "(config, effective input sequence); non-trivial = at least one SendData or close command was produced.")
-    budget = {"quick": 30000, "thorough": 600000}
-    time_budget = {"quick": 30, "thorough": 540}
+    budget = {"quick": 20000, "thorough": 600000}
+    time_budget = {"quick": 20, "thorough": 540}
     fingerprints = ["mitmproxy.proxy.layers.tcp:TCPLayer", "mitmproxy.proxy.layers.udp:UDPLayer",
                     "mitmproxy.proxy.layer:Layer.handle_event", "mitmproxy.proxy.layer:Layer._Layer__continue",
                     "mitmproxy.proxy.layer:Layer._Layer__process",
